@@ -2,6 +2,7 @@ package main
 
 import (
 	"bufio"
+	"bytes"
 	"encoding/json"
 	"flag"
 	"fmt"
@@ -11,6 +12,7 @@ import (
 	"path/filepath"
 	"runtime"
 	"runtime/debug"
+	"strconv"
 	"strings"
 	"syscall"
 	"time"
@@ -143,6 +145,37 @@ type caseResult struct {
 	Us      int64  `json:"us"`
 	Alloc   uint64 `json:"alloc"`
 	PeakKiB int64  `json:"peak,omitempty"` // --only mode: growth of the resident-set high-water mark during the call
+}
+
+// selfCPUus: user+system CPU time of this process (all threads) in microseconds.
+func selfCPUus() int64 {
+	var ru syscall.Rusage
+	if syscall.Getrusage(syscall.RUSAGE_SELF, &ru) != nil {
+		return 0
+	}
+	return (ru.Utime.Sec+ru.Stime.Sec)*1_000_000 + int64(ru.Utime.Usec+ru.Stime.Usec)
+}
+
+// procCPUus: user+system CPU time of process pid from /proc/<pid>/stat (clock ticks of 10 ms), -1 if unreadable.
+func procCPUus(pid int) int64 {
+	b, err := os.ReadFile(fmt.Sprintf("/proc/%d/stat", pid))
+	if err != nil {
+		return -1
+	}
+	i := bytes.LastIndexByte(b, ')')
+	if i < 0 {
+		return -1
+	}
+	f := strings.Fields(string(b[i+1:]))
+	if len(f) < 13 {
+		return -1
+	}
+	ut, e1 := strconv.ParseInt(f[11], 10, 64)
+	st, e2 := strconv.ParseInt(f[12], 10, 64)
+	if e1 != nil || e2 != nil {
+		return -1
+	}
+	return (ut + st) * 10_000
 }
 
 // procStatusKiB reads a field such as VmHWM or VmRSS (KiB) from /proc/self/status.
@@ -290,13 +323,19 @@ func runRobustChild(args []string) error {
 				rss0 = procStatusKiB("VmRSS")
 			}
 			// announce the case before running it: if the process dies, the parent knows the culprit
-			fmt.Fprintf(out, "B %d\n", idx)
+			c0 := selfCPUus()
+			fmt.Fprintf(out, "B %d %d\n", idx, c0)
 			out.Flush()
 			runtime.ReadMemStats(&ms)
 			a0 := ms.TotalAlloc
 			t0 := time.Now()
 			oc, site, class := decodeEntry(tp.API, stream, info)
 			us := time.Since(t0).Microseconds()
+			// the time charged to the call is the smaller of wall time and CPU time of the process: on a busy machine
+			// wall time is inflated by other work, CPU time is not (and CPU time alone would count GC threads twice)
+			if c := selfCPUus() - c0; c > 0 && c < us {
+				us = c
+			}
 			runtime.ReadMemStats(&ms)
 			cr := caseResult{Idx: idx, Outcome: oc, Site: site, Class: class, Us: us, Alloc: ms.TotalAlloc - a0}
 			if *only > 0 {
@@ -447,7 +486,19 @@ func runChildPlan(plan []string, tpls []template, repo string, caseTimeout int) 
 		}()
 		current := 0
 		var t0 time.Time
+		var cpu0 int64
+		var lastCharged time.Duration
 		killed := ""
+		// charged(): time charged to the running case so far = min(wall, CPU of the child since the case began)
+		charged := func() time.Duration {
+			w := time.Since(t0)
+			if c := procCPUus(cmd.Process.Pid); c >= 0 {
+				if d := time.Duration(c-cpu0) * time.Microsecond; d < w {
+					return d
+				}
+			}
+			return w
+		}
 	loop:
 		for {
 			select {
@@ -456,7 +507,8 @@ func runChildPlan(plan []string, tpls []template, repo string, caseTimeout int) 
 					break loop
 				}
 				if strings.HasPrefix(l, "B ") {
-					fmt.Sscanf(l, "B %d", &current)
+					cpu0 = 0
+					fmt.Sscanf(l, "B %d %d", &current, &cpu0)
 					t0 = time.Now()
 					continue
 				}
@@ -472,11 +524,13 @@ func runChildPlan(plan []string, tpls []template, repo string, caseTimeout int) 
 					if cases[current-1].big {
 						lim = 1 * time.Second // not worth 11 s: TLC re-checks that the case really is out of C09's scope
 					}
-					if time.Since(t0) > lim {
+					// killed when the charged time passes the limit (or after 10x the limit of wall time whatever the load)
+					if time.Since(t0) > lim && (charged() > lim || time.Since(t0) > 10*lim) {
 						killed = "timeout"
 						if cases[current-1].big {
 							killed = "skipped-large"
 						}
+						lastCharged = charged()
 						cmd.Process.Kill()
 						break loop
 					}
@@ -492,7 +546,10 @@ func runChildPlan(plan []string, tpls []template, repo string, caseTimeout int) 
 			} else if err != nil {
 				oc = "oom-or-fatal"
 			}
-			results[current] = caseResult{Idx: current, Outcome: oc, Us: int64(time.Since(t0).Microseconds())}
+			if killed == "" {
+				lastCharged = time.Since(t0)
+			}
+			results[current] = caseResult{Idx: current, Outcome: oc, Us: lastCharged.Microseconds()}
 			done = current
 		} else if err == nil || done >= len(cases) {
 			if done < len(cases) && current == 0 {
